@@ -989,6 +989,9 @@ func (d *Data) sendJSONValuesInRange(w http.ResponseWriter, r *http.Request, ctx
 
 		return nil
 	})
+	if err != nil {
+		return
+	}
 	switch {
 	case tarOut:
 		tw.Close()
